@@ -262,7 +262,7 @@ pub open spec fn delivered<K, V: VSink<Frame>>(fin: Map<K, V>, old: Map<K, V>, k
     && exists|g: Frame| stripped(frame, g) && fin[k].sent() == #[trigger] old[k].sent().push(g)
 }
 
-//@fn server/src/sink/router.rs :: Sink<Frame> for Router :: start_send [props=C02 C08 C11]
+//@fn server/src/sink/router.rs :: Sink<Frame> for Router :: start_send [props=C02 C04 C08 C11]
     requires
         all_accepting_m(old(self).view()),                                                                              // futures::Sink protocol: poll_ready first
     ensures
@@ -353,7 +353,7 @@ pub open spec fn tagged(orig: MessagePayload, id: usize, out: MessagePayload) ->
     ensures self == Frame::Message(r),
 //@end
 
-//@fn server/src/topic/reqrep.rs :: Future for Topic :: poll [props=C02 C08 C09 C10 C11 C16] [slots=buffered_rep:C02.reply_not_overwritten buffered_err:C10.rejection_not_overwritten server:C10.bound_replier_not_replaced]
+//@fn server/src/topic/reqrep.rs :: Future for Topic :: poll [props=C02 C04 C08 C09 C10 C11 C16] [slots=buffered_rep:C02.reply_not_overwritten buffered_err:C10.rejection_not_overwritten server:C10.bound_replier_not_replaced]
     requires
         old(self).inv(),
     ensures
